@@ -18,6 +18,7 @@ type Profile struct {
 	W               map[string]int // op weights
 	PBurst          float64
 	PBlock          float64
+	PIdleOut        float64 // share of the departures that are idle timeouts (the world then has a 30 s idle timeout)
 	NoJitter        float64 // share of the worlds without network jitter (blocks can then be aligned with frame ticks)
 	StallBoost      float64 // share of the worlds in which tasks are stalled often (1 step in 100, up to 5 ms)
 	ProbeAfterBlock float64 // probability that a fresh connection joins (and leaves) right after a block
@@ -320,7 +321,9 @@ func GenHistory(seed uint64, p *Profile) *Scenario {
 				op = "rst"
 			}
 			st := Step{Conn: c, Op: op}
-			if r.Bool(g.p.PDie) {
+			if g.p.PIdleOut > 0 && r.Bool(g.p.PIdleOut) {
+				st = Step{Conn: c, Op: "idle_out"}
+			} else if r.Bool(g.p.PDie) {
 				st = Step{Conn: c, Op: "die", Variant: []string{"unmasked", "text", "no_timestamp", "bad_body", "empty_receipt", "not_protobuf", "close_frame"}[r.Intn(7)]}
 			}
 			g.steps = append(g.steps, st)
@@ -340,7 +343,7 @@ func GenHistory(seed uint64, p *Profile) *Scenario {
 		case x < p.PClose+p.PProbe+p.PBurst:
 			n := 2 + r.Intn(5)
 			if r.Bool(0.5) {
-				tail := r.Intn(10) // 0: switch, 1: close, 2-3: delete the entity, with updates still pending
+				tail := r.Intn(10) // 0-1: switch, 2: close, 3-4: delete the entity, with updates still pending
 				for i := 0; i < n; i++ {
 					op := "pose"
 					if r.Bool(0.3) {
@@ -348,20 +351,28 @@ func GenHistory(seed uint64, p *Profile) *Scenario {
 					}
 					st := g.makeOp(c, op)
 					st.NoPose = false
-					st.Pipe = i < n-1 || tail < 4
+					st.Pipe = i < n-1 || tail < 5
 					if op == "pose" {
 						st.Ent = Ref{K: "own", I: r.Intn(2)}
+					}
+					if tail < 2 && r.Bool(0.5) {
+						// ids that mean something in another session (the one about to be joined,
+						// perhaps) and nothing in this one
+						st.Ent = Ref{K: "foreign", I: r.Intn(3)}
+						if op == "comp_update" {
+							st.Typ = Ref{K: "lit", I: 1 + r.Intn(2)}
+						}
 					}
 					g.steps = append(g.steps, st)
 				}
 				switch {
-				case tail == 0:
+				case tail < 2:
 					g.join(c, g.sessName())
-				case tail == 1:
+				case tail == 2:
 					g.steps = append(g.steps, Step{Conn: c, Op: "close"})
 					g.dead[c] = true
 					g.joined[c] = ""
-				case tail < 4:
+				case tail < 5:
 					g.steps = append(g.steps, Step{Conn: c, Op: "entity_delete", Ent: Ref{K: "own", I: r.Intn(2)}})
 				}
 			} else {
@@ -535,6 +546,7 @@ func (g *genState) focusBlock(lj []int, k int) bool {
 	ei := r.Intn(2)
 	typ := Ref{K: "reg", I: r.Intn(3)}
 	name := []string{"open", "spin"}[r.Intn(2)]
+	prevOp := ""
 	for i, bc := range cs {
 		ent := Ref{K: "of", I: oc*8 + ei}
 		var menu []string
@@ -546,6 +558,15 @@ func (g *genState) focusBlock(lj []int, k int) bool {
 			menu, w = []string{"comp_add", "comp_delete", "comp_update", "comp_list", "action", "pose", "asset_add", "entity_delete", "joiner", "subscribe", "unsubscribe"}, []int{18, 14, 14, 8, 22, 4, 3, 3, 6, 4, 4}
 		}
 		op := g.pick(menu, w)
+		if i >= 2 && prevOp != "" && r.Bool(0.35) {
+			op = prevOp // the same request twice on the same object (add/add, delete/delete, action/action)
+		}
+		if i >= 1 {
+			prevOp = op
+			if op == "joiner" || op == "entity_delete" {
+				prevOp = ""
+			}
+		}
 		var st Step
 		switch op {
 		case "close":
